@@ -362,7 +362,9 @@ CanDispatch(s) == s.ctl.mode = "dispatch"
 Dispatch(s) ==
   LET f == s.ctl.f  args == s.ctl.args  env == s.ctl.env
       kind == FunKind(s, f)  fid == FunFID(s, f)
-      npop == IF kind = "fun" /\ s.cfg.tro THEN TerminalFID(s.frames, fid) ELSE 0 IN
+      \* (only calls of lisp functions are collapsed: a builtin would be run again by the frame it collapses into, in
+      \* that frame's package)
+      npop == IF kind = "fun" /\ f.n > 0 /\ s.cfg.tro THEN TerminalFID(s.frames, fid) ELSE 0 IN
   IF s.cfg.maxphys > 0 /\ Len(s.frames) >= s.cfg.maxphys THEN Fail(s, env)
   ELSE IF npop > 0 THEN [s EXCEPT !.ctl = Ret(VMark(npop, fid, f, args))]
   ELSE [s EXCEPT !.frames = Append(@, [Frame(fid, FrameName(s, f), s.envs[env].loc) EXCEPT !.tro = (kind = "macro")]),
